@@ -177,7 +177,7 @@ func vC06Bin[T vNum]() {
 	// storage order; a reuse/incr destination whose data order differs from the operand's is re-flagged, not re-laid out
 	anyF := la == "F" || (form == "TT" && lb == "F")
 	kfColMinMax := (op == "MinBetween" || op == "MaxBetween") && anyF
-	kfReuseOrder := (mode == "reuse" || mode == "incr") && ((vCfgStr("ld") == "F") != (la == "F"))
+	kfReuseOrder := mode == "reuse" && ((vCfgStr("ld") == "F") != (la == "F"))
 	kfCol := "KF-C16-minmax"
 	rCol := kfColMinMax
 	if kfReuseOrder {
